@@ -77,6 +77,10 @@ type Sched struct {
 	mainW    int
 	Deadlock bool
 	StepCap  bool
+	// reach counters
+	BlockedWaits int // times a task had to wait (lock held by a parked task, empty transport, condition)
+	LockWaits    int // ... of which for a lock
+	Switches     int // token hand-overs
 	Stuck    []string // description of blocked tasks at a deadlock
 	// OnQuiesce is called (in the context of the task that found nothing runnable)
 	// when unfinished tasks exist but none is runnable; it may wake tasks and
@@ -343,6 +347,7 @@ func (s *Sched) dispatch(from *Task) {
 			return
 		}
 		s.cur = next
+		s.Switches++
 		rawWrite(next.wfd)
 		if from.state == done {
 			return
@@ -390,6 +395,10 @@ func (s *Sched) Wait(obj any, kind string) {
 	t := s.cur
 	t.state = blocked
 	t.on = obj
+	s.BlockedWaits++
+	if kind == "lockwait" || kind == "rlockwait" {
+		s.LockWaits++
+	}
 	s.record(t, kind, describe(obj))
 	s.dispatch(t)
 }
